@@ -169,3 +169,19 @@ Definition decode_file_r (o : opts) (boxes : list (topshape * N)) : res fstate :
 
 Definition decode_file_sr (o : opts) (boxes : list (topshape * N)) : res fstate :=
   if o_lazy o then Err else decode_file_sr_loop o f0 BNone 0 boxes.
+
+(* ------------------------------------------------------------------ canonical byte strings *)
+(* A canonical string is what the encoders write for a tree: compact 8-byte headers whose size field is
+   8 + the body length.  Leaves carry their payload (opaque to the loops). *)
+Inductive ctree :=
+| CLeaf (name payload : list N)
+| CNode (name : list N) (kids : list ctree).
+
+Fixpoint cenc (c : ctree) : list N :=
+  match c with
+  | CLeaf nm p => be4 (8 + lenN p) ++ nm ++ p
+  | CNode nm kids =>
+      let body := (fix go (l : list ctree) : list N := match l with [] => [] | k :: r => cenc k ++ go r end) kids in
+      be4 (8 + lenN body) ++ nm ++ body
+  end.
+Fixpoint cencs (l : list ctree) : list N := match l with [] => [] | k :: r => cenc k ++ cencs r end.
